@@ -757,16 +757,26 @@ def types_oracle(g, text):
         if not m or retokenise_type(m.group(1)) != tdecl[t]:
             return 'terminal enum variant %s: %r does not denote %r' % (t, l, ty)
     # (2) Node variants and try_into signatures
+    rest = text[text.index('/// If the parser encounters an unexpected token'):]
+    node_blocks = []
+    for mb in re.finditer(r'\nenum (\w+) \{\n((?:    .*\n)*?)\}', rest):
+        body_lines = [l.strip() for l in mb.group(2).split('\n') if l.strip()]
+        heads = ['%s(%s),' % (nt['name'], nt['name']) for nt in g.nts]
+        if body_lines[:len(heads)] == heads and len(body_lines) == len(heads) + len(g.terminals):
+            node_blocks.append(body_lines[len(heads):])
+    if len(node_blocks) != 1:
+        return 'Node enum not found (%d candidates)' % len(node_blocks)
+    for l, (t, ty) in zip(node_blocks[0], g.terminals):
+        m = re.fullmatch(r'%s\((.*)\),' % re.escape(t), l)
+        if not m or retokenise_type(m.group(1)) != tdecl[t]:
+            return 'Node variant %s: %r does not denote %r' % (t, l, ty)
     for i, (t, ty) in enumerate(g.terminals):
-        found = [m.group(1) for m in re.finditer(r'\n    %s\((.*)\),\n' % re.escape(t), text)]
-        if len(found) < 2 or any(retokenise_type(x) != tdecl[t] for x in found):
-            return 'payload type of %s at the enum use sites: %r' % (t, found)
         sig = re.findall(r'fn try_into_[a-z0-9_]*_%d\(self\) -> Result<(.*), Self> \{' % i, text)
         if len(sig) != 1 or retokenise_type(sig[0]) != tdecl[t]:
             return 'try_into signature of %s: %r' % (t, sig)
     # (3) fields of terminal type
     exp = expected_typedefs(g)
-    got = [(h, [l.strip() for l in b]) for _, h, b in defs if h is not None][1:]
+    got = [(h, [l.strip() for l in b if l.strip()]) for _, h, b in defs if h is not None][1:]
     if len(got) != len(exp):
         return 'number of nonterminal type definitions'
     for (h, b), (eh, eb) in zip(got, exp):
